@@ -81,6 +81,7 @@ class Interp:
     self.hints = hints or {}
     self.stats = {'eqns': 0, 'sym_eqns': 0}
     self.concrete_nans = []
+    self.concrete_infs = []      # +-inf computed by a concrete equation from finite operands (x/0, log 0): a zero denominator of the derivative program
     self.lazy_unsupported = False
     self._poison_seen = False
     self.on_call = on_call
@@ -235,6 +236,9 @@ class Interp:
         if any(r.dtype.kind == 'f' and np.isnan(r).any() for r in res if hasattr(r, 'dtype') and not cj.is_key_dtype(r.dtype)) and \
            not any(np.asarray(x).dtype.kind == 'f' and np.isnan(np.asarray(x)).any() for x in ins if not (hasattr(x, 'dtype') and cj.is_key_dtype(x.dtype))):
           self.concrete_nans.append({'primitive': p, 'operands': [np.asarray(x).reshape(-1)[:6].tolist() for x in ins if not (hasattr(x, 'dtype') and cj.is_key_dtype(x.dtype))][:3]})
+        elif p in ('div', 'rsqrt', 'log', 'pow', 'integer_pow') and any(r.dtype.kind == 'f' and np.isinf(r).any() for r in res if hasattr(r, 'dtype') and not cj.is_key_dtype(r.dtype)) and \
+           all(np.isfinite(np.asarray(x)).all() for x in ins if not (hasattr(x, 'dtype') and cj.is_key_dtype(x.dtype)) and np.asarray(x).dtype.kind == 'f'):
+          self.concrete_infs.append({'primitive': p, 'operands': [np.asarray(x).reshape(-1)[:6].tolist() for x in ins if not (hasattr(x, 'dtype') and cj.is_key_dtype(x.dtype))][:3]})
       except Exception:      # noqa: BLE001
         pass
       return res
